@@ -130,7 +130,7 @@ func VerifC03dCommandLine(n, digits int) {
 	}
 	g := v.Reads[0]
 	verifrt.Assert(g.Glob == "/var/log/x.log", "the file differs from the command line")
-	verifrt.Assert(g.Mode == omode.CatClient, "dgrep does not run as a cat-type read on the server")
+	verifrt.Assert(g.Mode == omode.CatClient || g.Mode == omode.GrepClient, "dgrep runs as a follow on the server")
 	str, flags, _, _ := g.Re.VerifParts()
 	if pat == "" || pat == "." || pat == ".*" {
 		verifrt.Assert(len(flags) == 1 && flags[0] == regex.Noop, "a match-everything pattern is not a no-op filter on the server")
